@@ -260,6 +260,16 @@ func (w *World) Box(t types.Type, v string) string {
 }
 func (w *World) Unbox(t types.Type, v string) string {
 	s := w.SortOf(t)
+	if strings.HasPrefix(v, "(i_val (mk_iface ") {
+		if parts := splitSexp(v[7 : len(v)-1]); len(parts) == 3 {
+			v = parts[2]
+			if s != "Int" && strings.HasPrefix(v, "("+q("box:"+s)+" ") {
+				if bp := splitSexp(v); len(bp) == 2 {
+					return bp[1]
+				}
+			}
+		}
+	}
 	if s == "Int" {
 		return v
 	}
